@@ -29,6 +29,9 @@ theorem bloom_consts :
 theorem bloom_bits_width : Consts.bloomBitsWidth = 64 := by decide
 /-- the default policy (10 bits per key) probes 6 bits per key -/
 theorem default_bloom_k : Consts.defaultBitsPerKey = 10 ∧ Bloom.kOf Consts.defaultBitsPerKey = 6 := by decide
+/-- the plausibility bound of fix D20 (`SNAPPY_MAX_EXPANSION` in table_block.rs); at least the proved
+    maximal expansion of the decoder (22, `Snappy.decode_length_le`), so the guard rejects no valid stream -/
+theorem snappy_max_expansion : Consts.snappyMaxExpansion = 32 := by decide
 theorem display_writes_err : Consts.displayWritesErr = true := by decide
 
 /-- the status code list of error.rs is the model's, in order -/
